@@ -370,3 +370,24 @@ contract("verif.harness.filters.bloom_add_keeps", props=P, params={},
          ensures=["returns()", "spec.filters.bits_monotone(result[0], result[1])"],
          tiers=(), gen=lambda rng, tier: ({"size": rng.choice([1, 2, 9]), "function_count": rng.randrange(1, 12), "tweak": rng.getrandbits(32),
                                            "first": rand_bytes(rng, 20), "second": rand_bytes(rng, 33)} for _ in range(200)))
+
+
+# ---------------------------------------------------------------------------- SipHash finalisation from ANY absorbed state
+# hash() on an object that has absorbed `b` bytes in full words (any b < 2^56, not only the short messages of the #len contracts)
+# and holds a tail of l bytes: the last word carries (b + l) mod 256 in its top byte.  128-bit vectors so that an unreduced
+# length (b + l) << 56 is representable and then fails the 64-bit precondition of the compression step.
+def _gen_sip_state(l):
+    def gen(rng, tier):
+        for b in (0, 8, 248, 256, 264, 2**16, 2**32, 2**56 - 8):
+            yield {"self": {"__class__": "buidl.siphash.SipHash_2_4",
+                            "fields": {"v": tuple(rng.getrandbits(64) for _ in range(4)), "s": rand_bytes(rng, l), "b": b}}}
+    return gen
+
+
+for _l in range(8):
+    contract("buidl.siphash.SipHash_2_4.hash#state-tail%d" % _l, props=P, bv=128,
+             params={"self": obj("buidl.siphash.SipHash_2_4", v=_tup4, s="bytes:%d" % _l, b=("int", 0, 2**56))},
+             ensures=["returns()",
+                      "result == spec.filters.sip_finalize(*spec.filters.sip_compress(self.v[0], self.v[1], self.v[2], self.v[3], "
+                      "spec.filters.sip_last_word(self.s, self.b + %d)))" % _l],
+             gen=_gen_sip_state(_l))
